@@ -12,6 +12,10 @@ import sys
 
 ROOT = os.path.dirname(os.path.dirname(os.path.abspath(__file__)))
 HINTS = {
+    'm14': ('prefer a clause of the statement or a part of the quantified domain that none of them touches; look for the '
+            'function, branch or line of the anchored files that NONE of the ideas above modified and change that; or make a '
+            'change whose effect needs two of the earlier kinds of trigger at the same time (for example a boundary size '
+            'AND a second call); keep it realistic: something a maintainer would plausibly merge'),
     'm13': ('prefer a clause of the statement or a part of the quantified domain that none of them touches; the harness you '
             'are up against already varies argument types and layouts, holds results across calls, refills buffers in '
             'place, regenerates files in place, uses boundary sizes, near-degenerate geometry and retries after failures, '
